@@ -364,4 +364,64 @@ theorem foldl_items_flatMap (vals : List Bytes) (cc : Cc) :
   | nil => rfl
   | cons v t ih => simp [List.foldl_append, ih]
 
+theorem flatMap_items_of_renders (lines : List (Bytes × List Bytes)) (h : ∀ l ∈ lines, Renders l.1 l.2) :
+    (lines.map (·.1)).flatMap items = lines.flatMap (·.2) := by
+  induction lines with
+  | nil => rfl
+  | cons l t ih =>
+    simp only [List.map_cons, List.flatMap_cons]
+    rw [items_of_renders _ _ (h l (by simp)), ih (fun l' hl' => h l' (by simp [hl']))]
+
+/-- bytes allowed inside the simple quoted arguments considered here: anything but the quote and the backslash -/
+def isQdByte (c : UInt8) : Bool := !(c == 34) && !(c == 92)
+
+theorem endState_quoted_body (body : Bytes) (h : ∀ c ∈ body, isQdByte c = true) : endState .quoted (body ++ [34]) = some .plain := by
+  induction body with
+  | nil => rfl
+  | cons c cs ih =>
+    have hc := h c (by simp)
+    unfold isQdByte at hc
+    simp only [Bool.and_eq_true, Bool.not_eq_true'] at hc
+    simp only [List.cons_append, endState, hc.1, hc.2, Bool.false_eq_true, if_false]
+    exact ih (fun c hc => h c (by simp [hc]))
+
+theorem endState_append (q q' : QState) (a b : Bytes) (h : endState q a = some q') : endState q (a ++ b) = endState q' b := by
+  induction a generalizing q with
+  | nil => simp [endState] at h; subst h; rfl
+  | cons c cs ih =>
+    cases q <;> simp only [endState] at h <;> simp only [List.cons_append, endState]
+    · split
+      · rename_i hc; simp only [hc, if_true] at h; exact ih _ h
+      · rename_i hc; simp only [hc] at h
+        split
+        · rename_i hc2; simp [hc2] at h
+        · rename_i hc2; simp only [hc2] at h; exact ih _ h
+    · split
+      · rename_i hc; simp only [hc, if_true] at h; exact ih _ h
+      · rename_i hc; simp only [hc] at h
+        split
+        · rename_i hc2; simp only [hc2, if_true] at h; exact ih _ h
+        · rename_i hc2; simp only [hc2] at h; exact ih _ h
+    · exact ih _ h
+
+/-- `name="any text, with commas, without quote or backslash"` is one list element -/
+theorem elemOk_quoted_arg (name body : Bytes) (hne : name ≠ []) (hn : ∀ c ∈ name, isPlainByte c = true)
+    (hb : ∀ c ∈ body, isQdByte c = true) : elemOk (name ++ ([61, 34] ++ (body ++ [34]))) = true := by
+  unfold elemOk
+  simp only [Bool.and_eq_true, beq_iff_eq]
+  refine ⟨⟨?_, ?_⟩, ?_⟩
+  · cases name with
+    | nil => exact absurd rfl hne
+    | cons c cs => simp [(plainByte_not_delim c (hn c (by simp))).1]
+  · have : (name ++ ([61, 34] ++ (body ++ [34]))).getLast? = some 34 := by
+      have h1 : name ++ ([61, 34] ++ (body ++ [34])) = (name ++ ([61, 34] ++ body)) ++ [34] := by simp [List.append_assoc]
+      rw [h1, List.getLast?_append]; rfl
+    rw [this]; decide
+  · rw [endState_append _ _ _ _ (endState_plainBytes name hn)]
+    show endState .plain (61 :: 34 :: (body ++ [34])) = some .plain
+    simp only [endState]
+    simp only [show ((61 : UInt8) == 34) = false by decide, show ((61 : UInt8) == 44) = false by decide, Bool.false_eq_true, if_false,
+      show ((34 : UInt8) == 34) = true by decide, if_true]
+    exact endState_quoted_body body hb
+
 end SquidModel.Cache
